@@ -6,6 +6,7 @@ import (
 	"strings"
 
 	oaerrors "github.com/go-openapi/errors"
+	"github.com/go-openapi/strfmt"
 	"github.com/go-openapi/validate"
 	rt "verif.local/rt"
 )
@@ -62,6 +63,17 @@ func addSet(set []string, msgs ...string) []string {
 	return set
 }
 
+// c20Validations: "schema|data" pairs whose validation gives results with 0..3 errors, match counts and schemata.
+var c20Validations = []string{
+	`{"type":"object","properties":{"a":{"type":"integer"},"b":{"type":"string","minLength":2}},"required":["c"]}|{"a":"x","b":"y"}`,
+	`{"type":"object","properties":{"a":{"type":"integer"}}}|{"a":1}`,
+	`{"type":"array","items":{"type":"integer","maximum":3}}|[1,5,7]`,
+	`{"anyOf":[{"type":"string"},{"type":"integer","maximum":3}]}|5`,
+	`{"allOf":[{"type":"object","properties":{"a":{"type":"string"}}},{"required":["b"]}]}|{"a":1}`,
+	`{"type":"string","maxLength":1}|"abc"`,
+	`{"type":"integer"}|1`,
+}
+
 func genC20(seed uint64) *Scenario {
 	r := NewRand(seed)
 	sc := &Scenario{Property: "C20", GenSeed: seed, Seed: r.U64(), Pool: swarmPool(r)}
@@ -93,6 +105,11 @@ func genC20(seed uint64) *Scenario {
 		case x < 14:
 			st.Op = "new"
 			st.Pooled = r.Chance(pooledPM)
+			if r.Chance(200) {
+				// a result produced by a real validation: it carries errors, a match count and schemata
+				st.Op, st.Pooled = "newval", false
+				st.Msgs = []string{pick(r, c20Validations)}
+			}
 		case x < 34:
 			st.Op = "adderr"
 		case x < 48:
@@ -256,6 +273,28 @@ func runC20(sc *Scenario, keepLog bool) (rep *RunReport) {
 					res[st.I] = new(validate.Result)
 				}
 				mod[st.I] = rModel{live: true, pooled: st.Pooled}
+			case "newval":
+				if st.I < 0 || len(st.Msgs) == 0 {
+					return
+				}
+				parts := strings.SplitN(st.Msgs[0], "|", 2)
+				sch, err1 := parseSchema(parts[0])
+				data, err2 := decodeJSON(parts[1], false)
+				if err1 != nil || err2 != nil {
+					panic(inputError{fmt.Errorf("c20 validation pair %q", st.Msgs[0])})
+				}
+				opts := []validate.Option{}
+				if i%2 == 1 {
+					opts = append(opts, validate.WithRecycleValidators(true))
+				}
+				vr := validate.NewSchemaValidator(sch, nil, "", strfmt.Default, opts...).Validate(data)
+				res[st.I] = vr
+				// the model starts from what the validation reported (its correctness is not C20's business)
+				m := rModel{live: true, pooled: validate.VerifWantsRedeem(vr), match: vr.MatchCount}
+				m.errs = addSet(nil, errTexts(vr.Errors)...)
+				m.warns = addSet(nil, errTexts(vr.Warnings)...)
+				mod[st.I] = m
+				rep.probe("operands-produced-by-validations", 1)
 			case "adderr":
 				if st.I < 0 || !mod[st.I].live {
 					return
